@@ -35,6 +35,7 @@ type contract struct {
 	phase  int          // oracle voting: 0 pending, 1 started, 2 finished (generator's belief)
 	dead   bool
 	height uint64 // header height at start of voting
+	voters []int  // multisig: key indexes the owner tried to add
 }
 
 type pending struct {
@@ -49,6 +50,7 @@ type gen struct {
 	pend      map[common.Hash]pending
 	wasmCode  map[string][]byte
 	wnonce    int
+	focus     *contract // a voting contract the guided calls concentrate on for a while
 	jump      uint64    // shadow mode: extra blocks the next fabricated header skips
 	lateTerm  *contract // voting contract to terminate after the jump
 }
@@ -225,8 +227,20 @@ func (g *gen) next(st *appstate.AppState, hdr *types.Header) (txInfo, bool) {
 			}
 			deployE(1, [][]byte{u64(ts)}, "timelock")
 		case 2:
-			args := [][]byte{[]byte("fact"), u64(now - uint64(r.Intn(100))), u64(uint64(1 + r.Intn(4))), u64(100), {byte(51 + r.Intn(20))},
-				{byte(1 + r.Intn(3))}, u64(uint64(50 + r.Intn(200))), big.NewInt(int64(1 + r.Intn(1000))).Bytes(), {byte(r.Intn(3) * 10)}}
+			vd := uint64(2 + r.Intn(5))
+			if g.cc.cs.Mode == "shadow" {
+				vd = uint64(30 + r.Intn(200))
+			}
+			quorum := byte(1)
+			if r.Intn(4) == 0 {
+				quorum = byte(2 + r.Intn(20))
+			}
+			pvd := uint64(100)
+			if g.cc.cs.Mode == "shadow" && r.Intn(4) != 0 {
+				pvd = 4000
+			}
+			args := [][]byte{[]byte("fact"), u64(now - uint64(r.Intn(100))), u64(vd), u64(pvd), {byte(51 + r.Intn(20))},
+				{quorum}, u64(uint64(50 + r.Intn(200))), big.NewInt(int64(1 + r.Intn(1000))).Bytes(), {byte(r.Intn(3) * 10)}}
 			if r.Intn(3) == 0 {
 				args = append(args, chainfx_dna(int64(r.Intn(100))).Bytes(), g.anyAddr().Bytes())
 			}
@@ -292,6 +306,9 @@ func (g *gen) next(st *appstate.AppState, hdr *types.Header) (txInfo, bool) {
 		if c.typ == 2 && r.Intn(2) == 0 {
 			amt = chainfx_dna(int64(5000 + r.Intn(500)))
 		}
+		if c.typ == 0 && r.Intn(2) == 0 {
+			amt = chainfx_dna(int64(100 + r.Intn(2000))) // sub-deployments / cross-contract calls with pay amounts
+		}
 		tx = &types.Transaction{Type: types.SendTx, To: &a, Amount: amt}
 		desc = "fund-" + cname(c)
 	case choice < 42: // terminate
@@ -321,6 +338,12 @@ func (g *gen) next(st *appstate.AppState, hdr *types.Header) (txInfo, bool) {
 		c := g.find(func(*contract) bool { return true })
 		if c == nil {
 			return txInfo{}, false
+		}
+		if g.focus == nil || g.focus.dead || r.Intn(40) == 0 {
+			g.focus = g.find(func(x *contract) bool { return x.typ == 2 })
+		}
+		if g.focus != nil && !g.focus.dead && r.Intn(100) < 45 {
+			c = g.focus
 		}
 		if r.Intn(3) != 0 {
 			sender = c.owner
@@ -352,12 +375,22 @@ func (g *gen) next(st *appstate.AppState, hdr *types.Header) (txInfo, bool) {
 			switch r.Intn(4) {
 			case 0, 1:
 				sender = c.owner
-				call(c, "add", nil, g.cc.w.Addrs[g.user()].Bytes())
+				v := g.user()
+				cc := c
+				pd.hook = func(ok bool) {
+					if ok {
+						cc.voters = append(cc.voters, v)
+					}
+				}
+				call(c, "add", nil, g.cc.w.Addrs[v].Bytes())
 			case 2:
 				sender = g.user()
-				call(c, "send", someAmt(), g.cc.w.Addrs[1+r.Intn(2)].Bytes(), big.NewInt(int64(1+r.Intn(3))*1000).Bytes())
+				if len(c.voters) > 0 && r.Intn(5) != 0 {
+					sender = c.voters[r.Intn(len(c.voters))]
+				}
+				call(c, "send", someAmt(), g.cc.w.Addrs[1+r.Intn(2)].Bytes(), big.NewInt(int64(1+r.Intn(2))*1000).Bytes())
 			default:
-				call(c, "push", someAmt(), g.cc.w.Addrs[1+r.Intn(2)].Bytes(), big.NewInt(int64(1+r.Intn(3))*1000).Bytes())
+				call(c, "push", someAmt(), g.cc.w.Addrs[1+r.Intn(2)].Bytes(), big.NewInt(int64(1+r.Intn(2))*1000).Bytes())
 			}
 		case c.wname == "erc20":
 			switch r.Intn(3) {
@@ -504,15 +537,18 @@ func (g *gen) votingCall(st *appstate.AppState, c *contract, sender *int, call f
 		k := r.Intn(10)
 		switch {
 		case dur < vd && k < 7: // secret vote by an identity
-			*sender = g.user()
+			*sender = []int{1, 2, 3, 5}[r.Intn(4)] // Verified, Newbie, Human, Verified
+			if r.Intn(8) == 0 {
+				*sender = g.user()
+			}
 			v := vote{v: byte(r.Intn(2)), salt: []byte{byte(r.Intn(256)), 7}}
 			h := crypto.Hash(append(common.ToBytes(v.v), v.salt...))
 			call(c, "sendVoteProof", big.NewInt(int64(1000+r.Intn(2000))), h[:])
 			if _, ok := c.votes[*sender]; !ok {
 				c.votes[*sender] = v
 			}
-			if shadow && len(c.votes) >= 2 && r.Intn(2) == 0 {
-				g.jump = vd
+			if shadow && len(c.votes) >= 2 && r.Intn(2) == 0 && vd > dur {
+				g.jump = vd - dur // the public voting starts
 			}
 		case dur >= vd && k < 6: // open vote
 			voters := make([]int, 0, len(c.votes))
